@@ -40,6 +40,8 @@ pub enum Act {
     /// deviation: the committer receives its own commit back from the delivery service instead
     /// of calling apply_pending_commit
     Echoed { by: usize, spec: CommitSpec },
+    /// an outsider sends a new-member Add proposal for itself (C16)
+    NewMemberPropose,
 }
 
 /// How a commit round departs from the default environment.
@@ -815,6 +817,10 @@ impl HistoryModel {
                 Some(_) => Step::Continue,
                 None => Step::Stop,
             },
+            Act::NewMemberPropose => match super::c16::new_member_proposal(s, ctx) {
+                Some(_) => Step::Continue,
+                None => Step::Stop,
+            },
         };
         if self.mon.reject && matches!(step, Step::Continue) {
             super::c04::probe(s, ctx);
@@ -938,6 +944,9 @@ impl Model for HistoryModel {
             if o1.is_some() && !s.pending_adds.iter().any(|(x, _)| Some(*x) == o1) {
                 v.push(Act::ExternalPropose { remove: false });
             }
+        }
+        if self.mon.external && !members.is_empty() && o1.is_some() && !s.pending_adds.iter().any(|(x, _)| Some(*x) == o1) {
+            v.push(Act::NewMemberPropose);
         }
         v
     }
